@@ -114,6 +114,16 @@ func isNilErrReturn(f *core.Func, n *core.GNode) (nilErr bool, decided bool) {
 		return true, true
 	}
 	if len(rs.Results) == 0 {
+		// bare return: the error result is a named result; a blank name can never have been assigned
+		if f.Type.Results != nil {
+			fl := f.Type.Results.List
+			if len(fl) > 0 {
+				last := fl[len(fl)-1]
+				if len(last.Names) > 0 && last.Names[len(last.Names)-1].Name == "_" {
+					return true, true
+				}
+			}
+		}
 		return false, false // named results
 	}
 	if len(rs.Results) == 1 && ei > 0 {
